@@ -23,6 +23,7 @@ raises `NotImplementedError` for non-square systems without Slycot, so that `sys
 (what the proposed repair `_has_zero_at` computes).
 -/
 import CtrlVerif.Model.FRDDyn
+import CtrlVerif.Model.QI
 import Mathlib.LinearAlgebra.Matrix.Determinant.Basic
 import Mathlib.Algebra.BigOperators.Fin
 import Mathlib.Data.Matrix.Block
@@ -188,10 +189,111 @@ def dcPoint : Dt → K
   | .dtrue => 1
   | .disc _ => 1
 
-/-- `sys.dcgain()` (before the real-part post-processing, which is the identity on the real
-values the exact model produces). -/
+/-- `sys.dcgain()`: the value at the DC point (the real-part post-processing of `_dcgain` is
+`dcPost` below; `C04.dcgain_code_value`: it never changes a value). -/
 def dcgain (L : LTI K) : Matrix (Fin L.p) (Fin L.m) (IVal K) :=
   call1 L (dcPoint L.dt)
+
+/-! ### `_dcgain`: the real-part post-processing
+
+`_dcgain` returns `zeroresp.real` when **every** entry of the zero-frequency response is real
+(`np.isreal`) or has a NaN imaginary component (the `inf + nan j` / `nan + nan j` written at a
+pole), and the complex array otherwise.  With real coefficients every entry passes; a
+`TransferFunction` with complex coefficients can have a gain matrix in which some entries pass and
+others do not.  The test reads the *components* of an IEEE complex value, so the outcome of a
+division by zero is modelled one level finer than `IVal`: NumPy computes `(a + bj) / (0 + 0j)` as
+`a/0 + (b/0) j`, each component `±inf` (non-zero over zero) or `nan` (`0/0`). -/
+
+/-- what `_dcgain` reads of a scalar: `z.real`, `np.isreal z` (the imaginary component is 0) and
+whether the real component is 0.  `ℚ(i)` (the driver) and `ℂ` have the obvious instance; the
+theorems use only the two laws. -/
+structure Parts (K : Type) [Field K] where
+  re : K → K
+  isReal : K → Bool
+  reZero : K → Bool
+  re_of_real : ∀ z, isReal z = true → re z = z
+  zero_iff : ∀ z, z = 0 ↔ (reZero z = true ∧ isReal z = true)
+
+/-- the components over `ℚ(i)`. -/
+def partsQI : Parts QI where
+  re z := ⟨z.re, 0⟩
+  isReal z := decide (z.im = 0)
+  reZero z := decide (z.re = 0)
+  re_of_real z h := by
+    have h' : z.im = 0 := of_decide_eq_true h
+    exact QuadraticAlgebra.ext rfl h'.symm
+  zero_iff z := by
+    constructor
+    · rintro rfl; exact ⟨by simp, by simp⟩
+    · rintro ⟨h1, h2⟩
+      exact QuadraticAlgebra.ext (of_decide_eq_true h1) (of_decide_eq_true h2)
+
+/-- an IEEE complex value with the component pattern of a division by zero: finite, or
+`a/0 + (b/0) j` where a component is infinite (`true`) or NaN (`false`). -/
+inductive Cx (K : Type) where
+  | fin (z : K)
+  | div0 (reInf imInf : Bool)
+  deriving DecidableEq, Repr
+
+/-- the outcome class of a pattern: `nan + nan j` is `nan`, any infinite component is `inf`. -/
+def Cx.cls : Cx K → IVal K
+  | .fin z => .fin z
+  | .div0 r i => if r || i then .inf else .nan
+
+/-- complex division with the component pattern: `n / d`, and `re n / 0 + (im n / 0) j` for
+`d = 0`. -/
+def ieeeDivCx (P : Parts K) (n d : K) : Cx K :=
+  if d = 0 then .div0 (!P.reZero n) (!P.isReal n) else .fin (n / d)
+
+/-- `TransferFunction.horner` with component patterns. -/
+def tfHornerCx (P : Parts K) {p m : Nat} (e : Fin p → Fin m → Frac K) (x : K) :
+    Matrix (Fin p) (Fin m) (Cx K) :=
+  Matrix.of fun i j => ieeeDivCx P (polyval (e i j).num x) (polyval (e i j).den x)
+
+/-- the singular branch of `StateSpace.horner` writes `complex(inf, nan)` / `complex(nan, nan)`. -/
+def ssCx : IVal K → Cx K
+  | .fin z => .fin z
+  | .inf => .div0 true false
+  | .nan => .div0 false false
+
+/-- `sys(x)` with component patterns. -/
+def call1Cx (P : Parts K) : (L : LTI K) → K → Matrix (Fin L.p) (Fin L.m) (Cx K)
+  | .tf _ _ e _, x => tfHornerCx P e x
+  | .ss _ _ _ G _, x => Matrix.of fun i j => ssCx (ssHorner G x i j)
+
+/-- the entry test of `_dcgain`: `np.isreal(z) or np.isnan(z.imag)`. -/
+def Parts.passes (P : Parts K) : Cx K → Bool
+  | .fin z => P.isReal z
+  | .div0 _ i => !i
+
+/-- the class of `z.real`. -/
+def Parts.reCls (P : Parts K) : Cx K → IVal K
+  | .fin z => .fin (P.re z)
+  | .div0 r _ => if r then .inf else .nan
+
+/-- do all entries pass (`np.all`)? -/
+def allPass (P : Parts K) {p m : Nat} (M : Matrix (Fin p) (Fin m) (Cx K)) : Bool :=
+  (List.finRange p).all fun i => (List.finRange m).all fun j => P.passes (M i j)
+
+/-- does some entry pass (`np.any`; not what the code does, see `dcPostAny`)? -/
+def anyPass (P : Parts K) {p m : Nat} (M : Matrix (Fin p) (Fin m) (Cx K)) : Bool :=
+  (List.finRange p).any fun i => (List.finRange m).any fun j => P.passes (M i j)
+
+/-- the post-processing of `_dcgain`: `(is the result a real array, its values)`. -/
+def dcPost (P : Parts K) {p m : Nat} (M : Matrix (Fin p) (Fin m) (Cx K)) :
+    Bool × Matrix (Fin p) (Fin m) (IVal K) :=
+  if allPass P M then (true, Matrix.of fun i j => P.reCls (M i j))
+  else (false, Matrix.of fun i j => (M i j).cls)
+
+/-- the same with `np.any` in place of `np.all` (a plausible slip; `C04.dcPostAny_changes`). -/
+def dcPostAny (P : Parts K) {p m : Nat} (M : Matrix (Fin p) (Fin m) (Cx K)) :
+    Bool × Matrix (Fin p) (Fin m) (IVal K) :=
+  if anyPass P M then (true, Matrix.of fun i j => P.reCls (M i j))
+  else (false, Matrix.of fun i j => (M i j).cls)
+
+/-- `sys.dcgain()` as the code computes it: evaluate at the DC point, then post-process. -/
+def dcgainCode (P : Parts K) (L : LTI K) : Bool × Matrix (Fin L.p) (Fin L.m) (IVal K) :=
+  dcPost P (call1Cx P L (dcPoint L.dt))
 
 /-! ### poles and zeros: what is handed to the root finders -/
 
